@@ -411,3 +411,69 @@ def _check_ifaces(case):
 
 HARNESS['pydoctor/extensions/zopeinterface.py:_inheritedDocsources'] = {'cases': _iface_cases, 'check': _check_ifaces,
     'bound': 'a diamond of four interfaces, every non-empty subset of them declaring the member (15), an implementer and a subclass of it'}
+
+
+# ---- nested classes: a base named in a class body is looked up in that class body first -----------------------------------
+NESTED_SRC = '''\
+from typing import Generic, TypeVar
+T = TypeVar("T")
+class A:
+    def m(self): "A.m"
+    def only_a(self): "A.only_a"
+class G(Generic[T]):
+    def g(self): "G.g"
+class Outer:
+    class A:
+        def m(self): "Outer.A.m"
+    class G(Generic[T]):
+        def g(self): "Outer.G.g"
+    class B(A):
+        pass
+    class H(G[int], B):
+        pass
+    class Deep:
+        class A:
+            def m(self): "Outer.Deep.A.m"
+        class C(A):
+            pass
+class Later(Outer.B):
+    pass
+class Plain(A):
+    pass
+'''
+
+
+def _nested_cases(tier, seed):
+    yield {'nested': True}
+
+
+def _check_nested(case):
+    """linearisation, defining class and inherited docstring of classes whose bases are written with names that both the enclosing
+    class body and the module bind - against CPython on the same source"""
+    import inspect
+    from replay import fixtures
+    from pydoctor import model
+    ns = {'__name__': 'nm'}
+    exec(NESTED_SRC, ns)
+    system = fixtures.build_system([('nm', NESTED_SRC, False)])
+    fails = []
+    for qual in ('Outer.B', 'Outer.H', 'Outer.Deep.C', 'Later', 'Plain'):
+        pycls = ns[qual.split('.')[0]]
+        for part in qual.split('.')[1:]:
+            pycls = getattr(pycls, part)
+        want = ['nm.' + c.__qualname__ for c in pycls.__mro__ if c.__module__ == 'nm']
+        o = system.allobjects['nm.' + qual]
+        got = [c.fullName() for c in o.mro() if isinstance(c, model.Class)]
+        if got != want:
+            fails.append({'observed': f'nm.{qual}: linearisation {got}', 'required': f'{want} (type().__mro__)', 'class': 'nested-mro'})
+            continue
+        for member in ('m', 'g', 'only_a'):
+            pym = getattr(pycls, member, None)
+            found = o.find(member)
+            if (pym is None) != (found is None) or (pym is not None and 'nm.' + pym.__qualname__ != found.fullName()):
+                fails.append({'observed': f'nm.{qual}.find({member!r}) -> {found and found.fullName()}', 'required': f'{pym and pym.__qualname__}', 'class': 'nested-find'})
+    return fails or None
+
+
+HARNESS['pydoctor/astbuilder.py:ModuleVistor.visit_ClassDef'] = {'cases': _nested_cases, 'check': _check_nested,
+    'bound': 'one module with classes nested two levels deep whose base names (plain and generic) are bound both in the enclosing class body and in the module'}
